@@ -1,6 +1,7 @@
 from __future__ import annotations
 
 import logging
+import os
 from typing import (
     IO,
     Callable,
@@ -116,12 +117,19 @@ def import_root_histogram(
     path = path or ''
     path = path.strip('/')
     fullpath = str(resolver(filename))
-    if fullpath not in filecache:
+    # a cached file is only reused while the file on disk is unchanged
+    try:
+        file_stat = os.stat(fullpath)
+        signature = (file_stat.st_mtime_ns, file_stat.st_size, file_stat.st_ino)
+    except OSError:
+        signature = None
+    cached = filecache.get(fullpath)
+    if cached is None or (len(cached) > 2 and cached[2] != signature):
         f = uproot.open(fullpath)
         keys = set(f.keys(cycle=False))
-        filecache[fullpath] = (f, keys)
+        filecache[fullpath] = (f, keys, signature)
     else:
-        f, keys = filecache[fullpath]
+        f, keys = cached[0], cached[1]
 
     fullname = "/".join([path, name])
 
